@@ -10,6 +10,7 @@ use crate::Error;
 use flate2::bufread::{
     DeflateDecoder,
     GzDecoder,
+    ZlibDecoder,
 };
 use rhymessage::MessageHeaders;
 use std::io::Read as _;
@@ -112,10 +113,28 @@ where
     B: AsRef<[u8]>,
 {
     let body = body.as_ref();
-    let mut decoder = DeflateDecoder::new(body);
-    let mut body = Vec::new();
-    decoder.read_to_end(&mut body).map_err(Error::BadContentEncoding)?;
-    Ok(body)
+    let mut decoded = Vec::new();
+    // The "deflate" coding is the zlib format (RFC 7230 section 4.2.2), but
+    // many senders emit the bare deflate stream instead.  Tell them apart by
+    // the two-byte zlib header.
+    let has_zlib_header = matches!(
+        body,
+        [cmf, flg, ..]
+            if cmf & 0x0F == 8
+                && cmf >> 4 <= 7
+                && flg & 0x20 == 0
+                && (u16::from(*cmf) * 256 + u16::from(*flg)) % 31 == 0
+    );
+    if has_zlib_header {
+        ZlibDecoder::new(body)
+            .read_to_end(&mut decoded)
+            .map_err(Error::BadContentEncoding)?;
+    } else {
+        DeflateDecoder::new(body)
+            .read_to_end(&mut decoded)
+            .map_err(Error::BadContentEncoding)?;
+    }
+    Ok(decoded)
 }
 
 fn gzip_decode<B>(body: B) -> Result<Vec<u8>, Error>
